@@ -253,7 +253,7 @@ def subchecks(tier):
             prop,
             quick=200,
             thorough=6000,
-            floors={"json": 0.245, "crash_at_last_period": 0.05, "crash_with_ev_and_pending_event": 0.272, "schedule_history_on": 0.161, "noise": 0.2},
+            floors={"json": 0.245, "crash_at_last_period": 0.05, "crash_with_ev_and_pending_event": 0.272, "schedule_history_on": 0.145, "noise": 0.2},
         )
     ]
 
